@@ -104,6 +104,7 @@ class Kernel:
         self.driver_sem = _real_threading.Semaphore(0)
         self.driver_thread = _real_threading.current_thread()
         self.on_idle = None  # callable(kernel, quiescent: bool) -> True if it injected work
+        self.on_all_blocked = None  # invariant hook: called whenever no thread is runnable
         self.on_finish = None  # snapshot hook, called once when the run ends (state still intact)
         self.on_step = None  # invariant hook, called after each executed event / switch
         self.progress = 0  # bumped by anything that is real progress (bytes, app steps)
@@ -255,6 +256,9 @@ class Kernel:
         returns True if the caller should re-evaluate, False if the run ended."""
         nxt_ev = self._next_deadline(active_only=True)
         nxt = self._next_deadline()
+        if self.on_all_blocked is not None and not self.finished:
+            # every thread is blocked right now (the clock is about to jump or the run to end)
+            self.on_all_blocked(self)
         if nxt_ev is None:
             # nothing but (possibly) timer deadlines of blocked threads
             quiescent = nxt is None
